@@ -6,6 +6,7 @@ import Driver.Sort
 import Driver.Stream
 import Driver.Tz
 import Driver.Daemon
+import Driver.Exec
 open Driver
 
 def step (line : String) : String :=
@@ -20,6 +21,7 @@ def step (line : String) : String :=
     else if op == "m.run" then runStream args
     else if op == "z.seq" then runTz args
     else if op == "d.hist" then runDaemon args
+    else if op == "x.run" then runExec args
     else "bad-op"
 
 partial def loop (h : IO.FS.Stream) (out : IO.FS.Stream) : IO Unit := do
